@@ -246,7 +246,8 @@ def run(prop, tier, seed, out):
                     if r["by_prop"].get(prop, 0) and not out.violations:
                         out.violation("registry replay %s: %d mismatches attributed to %s" % (tag, r["by_prop"][prop], prop), (r["mismatches"] or [])[:3])
             # ---- C02: thresholds read back as last set also when the setters meet the first registration of a type
-            if prop == "C02":
+            # ---- C01: "registered at that moment" when the set of pipelines changed while an earlier Send was inside a node
+            if prop in ("C01", "C02"):
                 hp2, rp2 = scr.path("c02-hist.ndjson"), scr.path("c02-stress.json")
                 p = run_vh(vh, ["conc-record", "-seed", str(seed), "-n", "1", "-rounds", "4000" if quick else "40000", "-hist", hp2, "-out", rp2], timeout=1500)
                 if p.returncode != 0:
@@ -256,14 +257,15 @@ def run(prop, tier, seed, out):
                         raise Broken("conc-record failed: " + p.stderr[-1000:])
                 else:
                     for pr in json.load(open(rp2))["problems"]:
-                        if pr["prop"] == "C02":
+                        if pr["prop"] == prop:
                             out.violation(pr["what"], pr)
             # ---- C03 with the Broker's own lock in the picture: Sends whose nodes call back into the Broker (nested Send, a
             # node registering something, the library's gated filter flushing through the Broker) while other goroutines
-            # write; Locks.tla (checked by C12) says every such Send returns when no Broker lock is held across Process
+            # write; Locks.tla (checked by C12) says every such Send returns when no Broker lock is held across Process.
+            # The "failed" scenarios make a management call whose precondition fails and then Send on the same Broker.
             if prop == "C03":
                 lp = scr.path("locks-send.json")
-                p = run_vh(vh, ["locks-run", "-only", "send,mixed", "-out", lp, "-reps", "1" if quick else "4"], timeout=900)
+                p = run_vh(vh, ["locks-run", "-only", "send,mixed,failed", "-out", lp, "-reps", "1" if quick else "4"], timeout=900)
                 if p.returncode != 0:
                     if "panic" in p.stderr or "fatal error" in p.stderr:
                         out.violation("process died while nodes re-entered the Broker from Process: " + p.stderr[:300], {"stderr": p.stderr[-3000:]})
